@@ -28,8 +28,11 @@ CLASSES = A.GRID_CLASSES
 NCLS = len(CLASSES)
 
 
+MASTER = 0      # VERIF_SEED of the batch: decides what a stratum leaves open
+
+
 def _rng(tag, index):
-    h = hashlib.sha256(("%s|%d" % (tag, int(index))).encode()).digest()
+    h = hashlib.sha256(("%s|%d|%d" % (tag, int(index), int(MASTER))).encode()).digest()
     return random.Random(int.from_bytes(h[:6], "big"))
 
 
@@ -828,7 +831,9 @@ def families(prop, tier):
     return []
 
 
-def plan(family, index):
+def plan(family, index, master=0):
+    global MASTER
+    MASTER = int(master)
     if family == "hist2":
         return plan_hist(index, 2)
     if family == "hist3":
@@ -856,7 +861,8 @@ def sample_indices(master, family, total, n):
         return []
     if n == total:
         return list(range(total))
-    rng = _rng("perm|%s|%d" % (family, int(master)), total)
+    h = hashlib.sha256(("perm|%s|%d|%d" % (family, int(master), int(total))).encode()).digest()
+    rng = random.Random(int.from_bytes(h[:6], "big"))
     while True:
         stride = rng.randrange(1, total)
         if math.gcd(stride, total) == 1:
